@@ -236,7 +236,7 @@ func (c *checkSchema) ensureShortcutKeysAreValid(node *schema.ObjectNode) error 
 		if err != nil {
 			return lexeme.NewLexEventError(v.Lex, err)
 		}
-		actualType := actualRootType(s, c.rootSchema)
+		actualType := actualRootType(s, c.rootSchema, nil)
 
 		if actualType != json.TypeString {
 			return lexeme.NewLexEventError(
@@ -248,7 +248,10 @@ func (c *checkSchema) ensureShortcutKeysAreValid(node *schema.ObjectNode) error 
 	return nil
 }
 
-func actualRootType(s, root *schema.Schema) json.Type {
+// actualRootType returns the JSON type of a type's root; visiting lists the type
+// names on the way here: types which refer to each other (@a = @a | @b) have no
+// JSON type of their own.
+func actualRootType(s, root *schema.Schema, visiting []string) json.Type {
 	t := s.RootNode().Type()
 	if t != json.TypeMixed {
 		return t
@@ -259,11 +262,16 @@ func actualRootType(s, root *schema.Schema) json.Type {
 		types := make(map[json.Type]struct{}, 2)
 		var tt json.Type
 		for _, tn := range n.GetTypes() {
+			for _, v := range visiting {
+				if v == tn {
+					return json.TypeMixed
+				}
+			}
 			ss, err := root.Type(tn)
 			if err != nil {
 				return json.TypeMixed
 			}
-			tt = actualRootType(ss, root)
+			tt = actualRootType(ss, root, append(visiting, tn))
 			types[tt] = struct{}{}
 		}
 		if len(types) == 1 { // all USER TYPES (example: @aaa | @bbb) have the same type (example: string)
